@@ -15,11 +15,12 @@ Transcription notes
   level seen by the target's handlers is the one carried over from the publishing topic.
 * every handler sits behind a `bufHandler` FIFO drained by its own goroutine: along a chain of publish
   handlers order is preserved. The model delivers depth-first and synchronously; this is faithful exactly
-  when every topic has at most one way in (direct collection XOR one publishing handler) — the driver
-  rejects histories outside that class (the generator never produces them) and the class is recorded as an
-  assumption in checks/C09.json. Under that hypothesis (plus forward-only publish edges) the model is PROVED equal
-  to the declarative chain semantics of Kap/Spec/C09Svc.lean (`svc_delivery_is_chain_semantics`); the diamond of
-  `single_entry_needed` shows where the two part ways without it.
+  when every topic has at most one way in (direct collection XOR one publishing handler): there all schedules
+  of the ASYNCHRONOUS model (Kap/Model/C09Async.lean) end in one state (`async_confluent_single_entry`). Under that
+  hypothesis (plus forward-only publish edges) this model is PROVED equal to the declarative chain semantics of
+  Kap/Spec/C09Svc.lean (`svc_delivery_is_chain_semantics`); the diamond of `single_entry_needed` shows where the
+  two part ways without it. Histories outside the class are no longer rejected by the driver: they are judged with
+  the schedule-quantified theorems of Kap/Props/C09Async.lean, and this model is compared on single-entry cases only.
 * the aggregate handler is modelled separately (content rule only): Kap/Model/C09Agg.lean.
 Core Lean only.
 -/
